@@ -51,6 +51,10 @@ Dom(ty) ==
 
 Lits == {I(0), I(1), I(2), I(3), S("a"), S("b"), B(TRUE), B(FALSE)}
 Classes == {"Int", "Nat", "Str", "Bool"}
+\* interval patterns `(_: lo..hi)` with each kind of bound: [name, lo, hi] with lo/hi INCLUSIVE integer bounds of the denotation
+Intervals == {"1..2", "0<..<4", "0..<3", "1<..3"}
+IvLo(c) == CASE c = "1..2" -> 1 [] c = "0<..<4" -> 1 [] c = "0..<3" -> 0 [] c = "1<..3" -> 2 [] c = "1..3" -> 1
+IvHi(c) == CASE c = "1..2" -> 2 [] c = "0<..<4" -> 3 [] c = "0..<3" -> 2 [] c = "1<..3" -> 3 [] c = "1..3" -> 3
 
 \* ---- layer A: run-time matching (Python semantics of the generated code: True == 1, bool is an int)
 AsNum(v) == IF v.t = "bool" THEN (IF v.b THEN 1 ELSE 0) ELSE v.n
@@ -59,6 +63,7 @@ InClass(v, c) ==
     [] c = "Nat" -> (v.t = "bool") \/ (v.t = "int" /\ v.n >= 0)
     [] c = "Str" -> v.t = "str"
     [] c = "Bool" -> v.t = "bool"
+    [] c \in Intervals -> v.t \in {"int", "bool"} /\ AsNum(v) >= IvLo(c) /\ AsNum(v) <= IvHi(c)
 LitEq(v, l) == IF v.t = "str" \/ l.t = "str" THEN v = l ELSE AsNum(v) = AsNum(l)
 Matches(arm, v) ==
   CASE arm.k = "wild" -> TRUE
@@ -88,9 +93,11 @@ IsLit(a) == a.t # "cls"
 AtomSub(a, b) ==
   IF a = b THEN TRUE
   ELSE IF b = C("Obj") THEN TRUE
-  ELSE IF IsLit(a) THEN (IF IsLit(b) THEN FALSE ELSE b.c \in Classes /\ ClassSub(LitClass(a), b.c))
-  ELSE IF a = C("1..3") THEN b \in {C("Nat"), C("Int")}
-  ELSE IF IsLit(b) \/ b = C("1..3") THEN FALSE
+  ELSE IF IsLit(a) THEN (IF IsLit(b) THEN FALSE
+                         ELSE IF b.c \in Intervals THEN a.t = "int" /\ a.n >= IvLo(b.c) /\ a.n <= IvHi(b.c)
+                         ELSE b.c \in Classes /\ ClassSub(LitClass(a), b.c))
+  ELSE IF a = C("1..3") THEN (b \in {C("Nat"), C("Int")} \/ (~IsLit(b) /\ b.c \in Intervals /\ IvLo(b.c) <= 1 /\ IvHi(b.c) >= 3))
+  ELSE IF IsLit(b) \/ b = C("1..3") \/ b.c \in Intervals THEN FALSE
   ELSE ClassSub(a.c, b.c)
 \* an atom below a union of atoms: below one of them, or (Bool, interval) split into its literals
 Below(a, bs) ==
@@ -107,7 +114,7 @@ AddArm(arm) == /\ Len(arms) < MaxArms
                /\ arms' = Append(arms, arm) /\ UNCHANGED T
 \* an arm's pattern must be able to meet the scrutinee type (otherwise the checker rejects the arm itself)
 Relevant(arm) == arm.k = "wild" \/ \E v \in Dom(T) : Matches(arm, v)
-Next == \E arm \in [k : {"lit"}, v : Lits] \cup [k : {"cls"}, v : {C(c) : c \in Classes}] \cup {[k |-> "wild", v |-> C("Obj")]} :
+Next == \E arm \in [k : {"lit"}, v : Lits] \cup [k : {"cls"}, v : {C(c) : c \in Classes \cup Intervals}] \cup {[k |-> "wild", v |-> C("Obj")]} :
            Relevant(arm) /\ AddArm(arm)
 Spec == Init /\ [][Next]_vars
 
